@@ -41,7 +41,15 @@ func c09Merge(c *vk.Ctx) {
 			jobs = append(jobs, Job{Harness: "MergeOKCount", Bound: b3, BudgetS: vk.Pick(c, 8.0, 300.0), FallbackDelay: vk.Pick(c, 3, 6), Params: map[string]int{"n": 3, "v0": vs[0], "v1": vs[1], "v2": vs[2], "k0": 1, "k1": 2, "k2": 0, "script": s}})
 		}
 	}
-	c.P.Rule = "E1: every schedule (within the stated preemption bound; unbounded = all, up to happens-before state caching) of one merge session over n scripted children, for every verdict/count table and client script listed in the harness; a job = (children, verdict table, script); distinct_nontrivial = jobs, distinct_outcomes = distinct client-visible reply streams"
+	// two sessions on ONE merge handler with the same event id / COUNT id in flight: per-request state is per session
+	for v0 := 0; v0 < 4; v0++ {
+		for v1 := 0; v1 < 4; v1++ {
+			for s := 0; s < 3; s++ {
+				jobs = append(jobs, Job{Harness: "MergeTwoSessions", Bound: bound, BudgetS: vk.Pick(c, 8.0, 300.0), FallbackDelay: vk.Pick(c, 3, 5), Params: map[string]int{"v0": v0, "v1": v1, "k0": v0 % 3, "k1": (v1 + 1) % 3, "script": s}})
+			}
+		}
+	}
+	c.P.Rule = "E1: every schedule (within the stated preemption bound; unbounded = all, up to happens-before state caching) of one merge session over n scripted children, for every verdict/count table and client script listed in the harness, and of two sessions on one merge handler submitting the same event / COUNT id (4x4 verdict tables x 3 scripts); a job = (children, verdict table, script); distinct_nontrivial = jobs, distinct_outcomes = distinct client-visible reply streams"
 	res := runJobs(c, jobs)
 	for i, r := range res {
 		if i%37 == 0 {
